@@ -19,6 +19,12 @@ class DType:
     def __init__(self, name):
         self.name = name
 
+    def __eq__(self, other):
+        return isinstance(other, DType) and other.name == self.name
+
+    def __hash__(self):
+        return hash(("dtype", self.name))
+
     def __repr__(self):
         return "<dtype %s>" % self.name
 
@@ -397,7 +403,7 @@ def arr_attr(R, E, arr, attr, node):
     if attr == "shape":
         return tuple(arr.shape)
     if attr == "dtype":
-        return DType({"real": "float64", "int": "int64", "bool": "bool"}[arr.kind])
+        return DType(getattr(arr.cell, "dtype_name", None) or {"real": "float64", "int": "int64", "bool": "bool"}[arr.kind])
     if attr == "ndim":
         return arr.ndim
     if attr == "T":
